@@ -142,6 +142,10 @@ async def main():
             async with StdioClient(params) as client:
                 obs["pending_stream"] = client.new_request_stream("p-1")
                 await client.send_json(create_request("tools/call", {"name": "slow"}, id="p-1"))
+                if case.get("second_pending_id") is not None:
+                    # a second request is pending as well, under an id of the other JSON type
+                    obs["pending_stream_2"] = client.new_request_stream(case["second_pending_id"])
+                    await client.send_json(create_request("tools/call", {"name": "slow"}, id=case["second_pending_id"]))
                 yield client.get_streams()
         elif api == "client_object_versioned":
             # the connection has settled on a revision (as a tracked handshake records it on the client)
@@ -257,6 +261,7 @@ async def main():
         obs["body_outcome"] = "raised:" + type(e).__name__ + ":" + str(e)[:100]
     # synchronously, before the loop gets another turn: the property speaks of the moment the context is left
     obs.pop("pending_stream", None)
+    obs.pop("pending_stream_2", None)
     obs["states_at_exit"] = {str(p): proc_state(p) for p in obs["pids"]}
     comp_pid = companion.get("pid") if companion else None
     obs["unknown_children_at_exit"] = [[p_, s_] for p_, s_ in my_children() if p_ not in obs["pids"] and p_ != comp_pid]
